@@ -4,6 +4,7 @@
 import logging
 
 import numpy as np
+import scipy.linalg
 from scipy.sparse.linalg import ArpackError, ArpackNoConvergence
 
 from ..tools.misc import argsort
@@ -545,10 +546,9 @@ class ArnoldiEvolution(Arnoldi):
     def _calc_result_krylov(self, k):
         """Compute ``exp(delta * h[:k+1, :k+1]) @ e0`` via eigendecomposition.
 
-        For a general (non-Hermitian) matrix h with right eigenvectors V and eigenvalues E,
-        h = V diag(E) V^{-1}, so exp(delta h) e0 = V diag(exp(delta E)) (V^{-1} e0).
-        This mirrors :class:`LanczosEvolution` (which uses ``eigh`` and V^{-1}=V†),
-        but uses ``eig`` and an explicit solve instead of conjugate-transpose.
+        A general (non-Hermitian) matrix `h` need not be diagonalizable, so we use the dense
+        :func:`scipy.linalg.expm` of the small projected matrix (instead of ``eig`` as
+        :class:`LanczosEvolution` does with ``eigh``).
         """
         h = self._h_krylov
         delta = self.delta
@@ -557,12 +557,8 @@ class ArnoldiEvolution(Arnoldi):
             self._result_norm = np.abs(exp_dE)
             self._result_krylov = np.array([[exp_dE / self._result_norm]])
         else:
-            E_kr, v_kr = np.linalg.eig(h[: k + 1, : k + 1])
-            # V^{-1} e0 = first column of V^{-1}; use solve for numerical stability
-            e0 = np.zeros(k + 1, dtype=complex)
-            e0[0] = 1.0
-            coeff = np.linalg.solve(v_kr, e0)
-            exp_dH_e0 = np.dot(v_kr, np.exp(E_kr * delta) * coeff)
+            # (dense) matrix exponential: an eigendecomposition fails if the projected `h` is defective
+            exp_dH_e0 = scipy.linalg.expm(delta * h[: k + 1, : k + 1])[:, 0]
             self._result_norm = np.linalg.norm(exp_dH_e0)
             # Shape (k+1, 1) to be compatible with Arnoldi._converged reading [:, 0].
             self._result_krylov = (exp_dH_e0 / self._result_norm).reshape(-1, 1)
